@@ -14,7 +14,7 @@ import vlib
 from props import C24 as H
 
 MANIFEST = {
-  "text": "proof: over R, about the Gallina definitions regenerated on every run from solver.py: for equality, friction-loss and limit/frictionless/pyramidal rows the force returned by _eval_constraint is minus the derivative of the returned cost at every jaref incl. zone boundaries, the cost is convex and C1 (D-Lipschitz gradient); abstract finite-dimensional KKT theorem: M symmetric PSD + convex row costs + stationarity M(a-a0)=J'f(a) imply a is the global minimiser of the Gauss cost, instantiated for systems of such rows (elliptic contacts: only per-branch derivative identities and C1 gluing at the zone boundaries are proved, block convexity is not: _partial); _state_check is the per-row second derivative; the line-search friction cost equals the reported cost. tested only (per input, a posteriori): that Newton/CG reach the stationary point (KKT residual small, qacc agrees with mujoco.mj_forward), efc_force equals the force implied by qacc, float32",
+  "text": "proof: over R, about the Gallina definitions regenerated on every run from solver.py: for equality, friction-loss and limit/frictionless/pyramidal rows the force returned by _eval_constraint is minus the derivative of the returned cost at every jaref incl. zone boundaries, the cost is convex and C1 (D-Lipschitz gradient); abstract finite-dimensional KKT theorem: M symmetric PSD + convex row costs + stationarity M(a-a0)=J'f(a) imply a is the global minimiser of the Gauss cost, instantiated for systems of such rows and, via first-order convexity of the whole elliptic contact block (all three zones, Cauchy-Schwarz + 2-D convexity of the distance-to-cone profile, row masses D_k mu^2 = D_0 mu_k^2), for any mix of simple rows and elliptic contacts (kkt_certificate_system); per-branch derivative identities and C1 gluing of the elliptic middle zone; _state_check is the per-row second derivative; the line-search friction cost equals the reported cost. tested only (per input, a posteriori): that Newton/CG reach the stationary point (KKT residual small, qacc agrees with mujoco.mj_forward), efc_force equals the force implied by qacc, float32",
   "note": "trusted: Coq kernel; translator bin/translate.py (validated each run against the compiled Warp functions); numpy port of _eval_constraint used by the oracle (cross-checked each run against the compiled function); Coquelicot auto_derive for the elliptic derivative lemmas; real-number axioms",
   "technique": "Rocq proof over functions machine-translated from the source (T) + a-posteriori optimality certificate and differential oracle vs MuJoCo",
   "engine": "coq",
@@ -173,7 +173,7 @@ def certificate(m, d, mm, dd, cfg):
       fails.append({"site": "kkt-residual", "world": w, "dof": i, "residual": float(res_v[i]), "scale": float(scale[i]), "relative": kkt, "niter": int(niter[w])})
     # (iii) against MuJoCo, when both built the same constraint set: MuJoCo's qacc must not have a lower
     # Gauss cost (evaluated in float64 on MJWarp's own J, aref, D with the port), and qacc agrees loosely
-    if w == 0 and H.same_constraints(m, d, dd, w):
+    if w == 0 and H.same_constraints(m, d, dd, w, frames=(cfg["cone"] == "pyramidal")):
       st["compared"] = st.get("compared", 0) + 1
       Minv_q = np.linalg.solve(M, qsm[w, :nv]) if nv else np.zeros(0)
 
@@ -280,7 +280,7 @@ def run(res):
   res.assumptions += [
     "float32 rounding is not modelled: theorems are over R",
     "convergence of Newton/CG is not proved: certified a posteriori per input (KKT residual <= 2e-3 Newton / 1e-2 CG relative to term magnitudes; qacc vs mujoco.mj_forward and Gauss cost not above the cost at MuJoCo's qacc, only on scenes where both engines built the same constraint set)",
-    "elliptic contact cost: per-branch derivative identities and C1 gluing only; block convexity not proved (kkt instance is _partial)",
+    "elliptic contacts enter the KKT theorem as blocks whose argument assembly is the hand model Model/SolverHand.v (tied to the kernel by C24's correspondence run) and under the row-mass relation D_k*mu^2 = D_0*mu_k^2 (checked on real data by C24)",
     "M symmetric positive semidefinite and D > 0 are hypotheses of the KKT theorem",
   ]
 
